@@ -97,8 +97,7 @@ fn main() {
             println!("{}", single_dispatch(&args[2], &args[3], &args[4]));
         }
         "hist" => {
-            let idx: Vec<usize> = args[2..].iter().map(|a| a.parse().expect("call index")).collect();
-            pchecks::hist_main(&idx);
+            pchecks::hist_main(&args[2..]);
         }
         "replay" => {
             if args.len() < 3 {
